@@ -240,6 +240,10 @@ func runC05(r *Run, replay *Case) {
 			c05IncludeInSlotContent(r)
 			return
 		}
+		if replay.Input["stream"] == "null-front-matter" {
+			c05NullFrontMatter(r)
+			return
+		}
 		if replay.Input["stream"] == "required-provided-empty" {
 			c05RequiredProvidedEmpty(r)
 			return
@@ -265,6 +269,7 @@ func runC05(r *Run, replay *Case) {
 	c05ConditionalIncludes(r)
 	c05IncludeInSlotContent(r)
 	c05RequiredProvidedEmpty(r)
+	c05NullFrontMatter(r)
 	// the same component several times with DIFFERENT props, the component forwarding them to a nested component: every instance receives
 	// exactly its own props at every level (how the instances are written x how the props are forwarded x depth)
 	for _, how := range []string{"separate", "loop", "loop-tag", "separate-tag", "loop-samename", "loop-tag-samename"} {
